@@ -29,3 +29,41 @@ class MeanAbsLoss(BaseLoss):
     def compute_loss_1d(self, sim, real):
         with np.errstate(all="ignore"):
             return float(np.abs(np.mean(sim) - np.mean(real)))
+
+
+class AdaptiveLoss(BaseLoss):
+    """A user loss with memory: it rescales by the largest raw distance it has seen so far (a running normalisation). A pure
+    function of (its state, the data); the state is part of the object and therefore of a checkpoint."""
+
+    def __init__(self):
+        super().__init__(None, None)
+        self.scale = 1.0
+        self.calls = 0
+
+    def compute_loss_1d(self, sim, real):
+        with np.errstate(all="ignore"):
+            raw = float(np.abs(np.mean(sim) - np.mean(real)))
+        self.calls += 1
+        if np.isfinite(raw):
+            self.scale = max(self.scale, raw)
+        return raw / self.scale + 1e-3 * self.calls
+
+
+class UpdateFault(Exception):
+    pass
+
+
+def failing_update_scheduler(samplers, fail_at):
+    """A user-defined scheduler (round-robin) whose update() raises once, at its `fail_at`-th invocation."""
+    from black_it.schedulers.round_robin import RoundRobinScheduler
+
+    class FailingUpdateScheduler(RoundRobinScheduler):
+        calls = 0
+
+        def update(self, *a, **k):
+            self.calls += 1
+            if self.calls - 1 == fail_at:
+                raise UpdateFault(f"update#{fail_at}")
+            return super().update(*a, **k)
+
+    return FailingUpdateScheduler(samplers)
